@@ -17,7 +17,7 @@ RULE = (
     "every input accepted by strict decoding among: generated encodings of all non-union types (incl. signed, 64-bit, "
     "named-range and enum-backed leaves), all command codes x directions x configurations, the captured corpus; plus "
     "value-corrupted variants decoded in warn mode whenever every warning is a value warning; per event the re-encoded "
-    "chunk is compared with the input slice at the running offset and with the pinned width; warn-mode variants include two different out-of-range values in two fields of the same type, their collected event lists are re-encoded as a list after the decode and once more after up to 40 further decodes in the same process; thorough: the repository's own test suite runs with a monitor around every decode it makes (look-ahead, round trip of clean completions, held events); distinct = distinct (type/code, "
+    "chunk is compared with the input slice at the running offset and with the pinned width; the encoder is fed with a list, a tuple, a one-shot iterator, the live decoder and a generator of the primitive events only; warn-mode variants include two different out-of-range values in two fields of the same type, their collected event lists are re-encoded as a list after the decode and once more after up to 40 further decodes in the same process; thorough: the repository's own test suite runs with a monitor around every decode it makes (look-ahead, round trip of clean completions, held events); distinct = distinct (type/code, "
     "configuration or fault, event count) cases"
 )
 ASSUMPTIONS = ["pinned widths", "contract layer (icontract) is supplementary; the trace law decides"]
@@ -61,6 +61,20 @@ def check_accepted(case, rec):
     joined = b"".join(Binary.unmarshal([e.raw for e in t.events]))
     if joined != case.d:
         rec.violation("concat", "unmarshal-join", f"{case.short()}\nb''.join(Binary.unmarshal(events)) = {joined.hex()[:80]} != input", case.replay(mode="strict"))
+    # the encoder takes any iterable of events: a one-shot iterator, the live decoder piped straight into it (what
+    # `convert --out binary` does), a lazily filtered range that starts at a primitive
+    raw = [e.raw for e in t.events]
+    feeds = (("an iterator", lambda: iter(raw)), ("the live decoder", lambda: TR.open_decode(case.t, case.d, True, case.cc, case.enc)),
+             ("a generator of the primitive events only", lambda: (e for e in raw if e.value is not ...)), ("a tuple", lambda: tuple(raw)))
+    for label, make in feeds:
+        try:
+            got = b"".join(Binary.unmarshal(make()))
+        except Exception as e:
+            rec.violation("encoder-feed", f"raises:{label.split()[-1]}", f"{case.short()}\nBinary.unmarshal fed with {label} raised {type(e).__name__}: {e}", case.replay(mode="strict"))
+            continue
+        rec.count("encoder_feeds")
+        if got != case.d:
+            rec.violation("encoder-feed", label.split()[1] if label.startswith("a ") else "live", f"{case.short()}\nBinary.unmarshal fed with {label} gives {got.hex()[:120]!r}, fed with a list it gives the input", case.replay(mode="strict"))
     if rec.counters.get("accepted", 0) % 4 == 0:
         RETAINED.append((case, t, "strict"))
     return True
@@ -185,7 +199,7 @@ def finish(m, tier):
     inc = []
     if tier == "thorough" and not m["counters"].get("repo_tests_completed_clean"):
         inc.append("the repository's tests were not observed under the monitors")
-    for k in ("accepted", "warn_value_only", "negative_values", "64bit_fields", "twin_value_faults", "warn_several_value_warnings", "retained_lists_rechecked"):
+    for k in ("encoder_feeds", "accepted", "warn_value_only", "negative_values", "64bit_fields", "twin_value_faults", "warn_several_value_warnings", "retained_lists_rechecked"):
         if not m["counters"].get(k):
             inc.append(f"no case of {k}")
     if m["counters"].get("contract_layer_active") and not m["counters"].get("contract_evals_int_to_bytes"):
